@@ -57,13 +57,43 @@ def translate():
     return rc == 0, out, rep
 
 
-def install_reference_gen():
+def install_reference_gen(only=None):
+    """copy the reference translation over Gen/ (all files, or the named ones)"""
     ref, gen = os.path.join(COQ, 'GenRef'), os.path.join(COQ, 'Gen')
     for f in os.listdir(ref):
-        if f.endswith('.v'):
+        if f.endswith('.v') and (only is None or f in only):
             text = open(os.path.join(ref, f)).read()
             if not os.path.exists(os.path.join(gen, f)) or open(os.path.join(gen, f)).read() != text:
                 open(os.path.join(gen, f), 'w').write(text)
+
+
+_GEN_DEPS = {}
+
+
+def gen_deps(pid):
+    """the generated files (names like 'EdgesGen.v') that Props/<pid>.v transitively requires; computed by coqdep over the reference
+    translation (coq/GenRef), so that a file that failed to translate cannot hide what lies below it"""
+    if not _GEN_DEPS:
+        src = []
+        for d in ('Model', 'GenRef', 'Proofs', 'Props'):
+            src += sorted(os.path.join(d, f) for f in os.listdir(os.path.join(COQ, d)) if f.endswith('.v'))
+        rc, out = sh(['coqdep', '-Q', 'Model', 'Connectome', '-Q', 'GenRef', 'Connectome', '-Q', 'Proofs', 'Connectome', '-Q', 'Props', 'Connectome'] + src,
+                     120, cwd=COQ)
+        graph = {}
+        for line in out.splitlines():
+            m = re.match(r'(\S+)\.vo .*?: (.*)', line)
+            if m:
+                graph[m.group(1)] = [x[:-3] for x in m.group(2).split() if x.endswith('.vo')]
+        _GEN_DEPS['graph'] = graph
+    graph = _GEN_DEPS['graph']
+    seen, todo = set(), [f'Props/{pid}']
+    while todo:
+        t = todo.pop()
+        for d in graph.get(t, []):
+            if d not in seen:
+                seen.add(d)
+                todo.append(d)
+    return {os.path.basename(x) + '.v' for x in seen if x.startswith('GenRef/')}
 
 
 def coq_sources():
